@@ -51,11 +51,16 @@ FAIL_AT = _CTX.Value("i", -1)
 HANG_AT = _CTX.Value("i", -1)
 
 
+HANG_SECONDS = 8
+
+
 def gated_task(index, payload):
     """the worker body: announces itself, waits for its release, returns a value depending on its arguments"""
     STARTED[index].set()
     if HANG_AT.value == index:
-        time.sleep(3600)
+        # far longer than the 1 s timeout it is run under, but finite: an implementation that ignores the timeout (e.g. by
+        # running the call in-process) must come back and be reported, not hang the harness
+        time.sleep(HANG_SECONDS)
     RELEASE[index].wait(WATCHDOG * 2)
     if FAIL_AT.value == index:
         DONE[index].set()
@@ -254,14 +259,18 @@ def check_timeout(n, k, stats=None):
     for event in RELEASE:
         event.set()
     box = {}
+    began = time.time()
     try:
         box["result"] = parallel_function(gated_task, [[i, i] for i in range(n)], cpus=k, timeout=1)
     except Exception as err:  # pylint: disable=broad-except
         box["error"] = err
+    elapsed = time.time() - began
     if stats is not None:
         stats["faults:timeout"] += 1
     if "error" not in box:
-        return [("timeout-not-raised", f"n={n} k={k}: returned {box['result']!r}")]
+        return [("timeout-not-raised", f"n={n} k={k}: returned {box['result']!r} after {elapsed:.1f}s")]
+    if elapsed >= HANG_SECONDS - 1:
+        return [("timeout-raised-only-after-the-task-ended", f"n={n} k={k}: {elapsed:.1f}s")]
     return []
 
 
